@@ -1,5 +1,5 @@
 """What MANIFEST.json claims (kept apart from the check logic)."""
-TECHNIQUE = "Lean 4 proof over hand-written executable model + differential correspondence with the Go implementation"
+TECHNIQUE = "Lean 4 proof over hand-written executable model (tables translated from the Go source on every run) + differential correspondence with the Go implementation"
 HOOK_COMMITS = ["6d567af", "1215bca", "9d3f334", "8c825b5", "596eb99", "0b409e9"]
 NOTES = ("See DESIGN.md. Every check: lake build of the property module + axiom audit, harness rebuilt from /repo working "
          "tree with -tags verif, corpus + generated cases judged by the compiled Lean driver (model output and monitor predicate).")
@@ -136,7 +136,9 @@ CLAIMED = {
              "determined by its trimmed lower-cased name and its trimmed value minus one pair of quotes, and quoting a "
              "value is the identity; an operator written with backslash-quote escapes is cut out exactly and unescapes to "
              "itself, for every operator that can be written at all. A reference grammar of target lists (Spec/Parse.lean) "
-             "states what a target list means. Tied to /repo by `parse`: descriptions -> renderings/near-misses -> real "
+             "states what a target list means. The model's tables (variable names, selectability, the case rule, action "
+             "types, transformation names and aliases) are proved equal to tables translated from the Go source on every run "
+             "(C16_*_are_source). Tied to /repo by `parse`: descriptions -> renderings/near-misses -> real "
              "parser (rule dump) vs the model, the description, and the reference grammar.",
         note=_TB + "Partial: equality of the target scanner with the reference grammar on all byte strings and the "
                    "parseActions round trip are decided by the correspondence, not by a theorem.",
